@@ -48,8 +48,13 @@ class Sandbox:
         p = os.path.join(self.data, "meta.json")
         if not os.path.exists(p):
             return None
+
+        def pairs(kv):
+            if len({k for k, _ in kv}) != len(kv):
+                raise ValueError("duplicate key")          # serde rejects a repeated field; so does this reading
+            return dict(kv)
         try:
-            return json.load(open(p))
+            return json.load(open(p), object_pairs_hook=pairs)
         except Exception:
             return "garbage"
 
@@ -98,6 +103,13 @@ def run(rng, tier, model_ok):
             return (1, 3)
         if state == "meta_garbage":
             open(mp, "w").write("{\"version\": \"0.1")
+            return (1, 3)
+        if state.startswith("meta_shape_"):
+            # well-formed JSON that is not the expected object: unreadable metadata all the same
+            shapes = {"meta_shape_nested": '{"version":{"major":0,"minor":1},"database_hash":"x"}', "meta_shape_number": '{"version":"%s","database_hash":12345}' % cur_meta["version"],
+                      "meta_shape_null": "null", "meta_shape_string": '"%s"' % cur_meta["version"], "meta_shape_list": '[1,2,3]',
+                      "meta_shape_duplicate": '{"version":"%s","version":"%s","database_hash":"%s"}' % (cur_meta["version"], cur_meta["version"], cur_meta["database_hash"])}
+            open(mp, "w").write(shapes[state])
             return (1, 3)
         if state == "meta_no_keys":
             open(mp, "w").write("{}")
@@ -156,7 +168,8 @@ def run(rng, tier, model_ok):
         raise ValueError(state)
     states = ["absent", "current", "other_version", "other_hash", "meta_missing", "meta_truncated", "meta_garbage", "meta_no_keys",
               "meta_only_version", "index_missing", "index_broken", "index_broken_other_hash", "everything_missing_but_dir",
-              "foreign_data_other_hash", "foreign_data_no_hash", "foreign_data_other_version", "foreign_data_meta_missing", "foreign_data_meta_garbage", "foreign_layout_other_patch", "foreign_layout_other_minor"]
+              "foreign_data_other_hash", "foreign_data_no_hash", "foreign_data_other_version", "foreign_data_meta_missing", "foreign_data_meta_garbage", "foreign_layout_other_patch", "foreign_layout_other_minor",
+              "meta_shape_nested", "meta_shape_number", "meta_shape_null", "meta_shape_string", "meta_shape_list", "meta_shape_duplicate"]
     cps = list(range(1, 11))
     histories = [[c] for c in cps]
     if tier == "thorough":
@@ -204,9 +217,9 @@ def run(rng, tier, model_ok):
     shutil.rmtree(root, ignore_errors=True)
     return {
         "evaluations": runs, "distinct_nontrivial": len(cases),
-        "rule": "20 prior directory states (absent; current; other version; other hash; metadata missing / truncated / torn / without keys / "
+        "rule": "26 prior directory states (absent; current; other version; other hash; metadata missing / truncated / torn / without keys / "
                 "version only; index directory missing / unopenable (with current and with other hash); empty directory; an index holding a fact that "
-                "is not shipped under five kinds of metadata that do not declare it current; an index of another layout under the version of another patch / minor release) x every crash point "
+                "is not shipped under five kinds of metadata that do not declare it current; an index of another layout under the version of another patch / minor release; metadata that is well-formed JSON of the wrong shape) x every crash point "
                 "1..10 (and pairs of crash points), each followed by a complete start compared with an in-memory database; non-trivial = "
                 "distinct (state, kill history) cases",
         "samples": samples, "mismatches": mismatches, "failures": failures,
